@@ -27,7 +27,7 @@ type Op struct {
 }
 
 type Case struct {
-	Powers  []int64 `json:"powers"`  // validator powers; validator Subject is the real node, the others are puppets
+	Powers  []int64 `json:"powers"` // validator powers; validator Subject is the real node, the others are puppets
 	Subject int     `json:"subject"`
 	Ops     []Op    `json:"ops"`
 }
